@@ -673,7 +673,7 @@ func replayC18(r *fw.Run, raw json.RawMessage) {
 func init() {
 	fw.Register(&fw.Engine{
 		ID: "C18", Level: "exploration",
-		Rule: "(a) stream-integrity monitor on the library's context aware connection (white-box constructor) over an in-memory pipe, a unix socketpair and a TCP pair: the peer sends a known byte stream (frames and raw payload mixed, NULs anywhere, lengths 0..70000 around 4096/8192) under a segmentation schedule (one write, byte-wise, random cuts with pauses, at frame boundaries, at 4095/4096/4097...), the consumer interleaves ReadBytes(NUL) and Read(n), n in {1,3,5,7,16,4095,4096,4097,65536} in 11 patterns; after every read the concatenation of everything returned must be a prefix of what was sent, and equal to it at end of stream; plus the decisive shape 'frame and raw payload in one segment'. (b) end to end: a raw client sends an upgrade call and the payload in one segment (and in two) to a real Service whose handler then reads Call.Conn; a scripted server sends reply frame and payload in one segment (and in two) to a real Connection that called Upgrade and reads the returned object. The bytes read must be exactly the payload, starting immediately after the frame. non-trivial = stream longer than one byte; distinct by (stream hash, schedule, read pattern).",
+		Rule: "(a) stream-integrity monitor on the library's context aware connection (white-box constructor) over an in-memory pipe, a unix socketpair and a TCP pair: the peer sends a known byte stream (frames and raw payload mixed, NULs anywhere, lengths 0..70000 around 4096/8192) under a segmentation schedule (one write, byte-wise, random cuts with pauses, at frame boundaries, at 4095/4096/4097...), the consumer interleaves ReadBytes(NUL) and Read(n), n in {1,3,5,7,16,4095,4096,4097,65536} in 11 patterns; after every read the concatenation of everything returned must be a prefix of what was sent, and equal to it at end of stream; plus the decisive shape 'frame and raw payload in one segment'. (b) end to end: a raw client sends an upgrade call and the payload in one segment (and in two) to a real Service whose handler then reads Call.Conn; a scripted server sends reply frame and payload in one segment (and in two) to a real Connection that called Upgrade and reads the returned object. The bytes read must be exactly the payload, starting immediately after the frame. non-trivial = stream longer than one byte; distinct by (stream hash, schedule, read pattern). Also: frames of 4090..70000 bytes with the payload in the same segment; duplex use (one goroutine writes a stream, another reads its echo on the same connection).",
 		Assumptions: []string{"a second segment is sent after the payload so that a reader that skipped the coalesced bytes is seen to return later bytes instead"},
 		Run:         runC18, Replay: replayC18, CrashIsViolation: true, MinEvals: 100,
 		QuickTimeout: 15 * time.Minute, ThoroughTimeout: 60 * time.Minute,
